@@ -1029,9 +1029,34 @@ class Evaluator:
         """every read of a list / dict sees its latest state (an in-place change re-binds one holder and forwards the old value to
         the new one: all other holders -- aliases, frames of callers, comprehension scopes -- follow the forward)"""
         v = self._ev(node, env)
-        if v.kind in ('list', 'dict') and getattr(self, 'forward', None):
-            return self._latest(v)
+        if v.kind in ('list', 'dict', 'tuple') and getattr(self, 'forward', None):
+            return self._deep_latest(v)
         return v
+
+    def _deep_latest(self, v: AV, depth: int = 4) -> AV:
+        """the latest state of a container and of the containers it holds (an element changed in place through another name)"""
+        v = self._latest(v) if v.kind in ('list', 'dict') else v
+        if depth <= 0 or v.items is None or not v.items:
+            return v
+        fw = self.forward
+        key = (id(v), len(fw))
+        cache = getattr(self, '_latest_cache', None)
+        if cache is None:
+            cache = self._latest_cache = {}
+        hit = cache.get(key)
+        if hit is not None and hit[0] is v:
+            return hit[1]
+        changed = False
+        items = []
+        for x in v.items:
+            y = self._deep_latest(x, depth - 1) if x.kind in ('list', 'dict', 'tuple') else x
+            changed = changed or (y is not x)
+            items.append(y)
+        out = replace(v, items=tuple(items)) if changed else v
+        if changed:
+            fw[id(v)] = (v, out)             # the holder follows its elements
+        cache[key] = (v, out)
+        return out
 
     def _ev(self, node, env) -> AV:
         if isinstance(node, ast.Constant):
@@ -2196,6 +2221,15 @@ class Evaluator:
         if a.kind == 'str' and b.kind == 'str' and isinstance(a.val, str) and isinstance(b.val, str):
             x, y = a.val, b.val
             return {ast.Lt: x < y, ast.LtE: x <= y, ast.Gt: x > y, ast.GtE: x >= y}[type(op)]
+        if (a.kind == 'none') != (b.kind == 'none') or (a.kind == 'none' and b.kind == 'none'):
+            raise AbsRaise('TypeError', f"'{ {ast.Lt: '<', ast.LtE: '<=', ast.Gt: '>', ast.GtE: '>='}[type(op)] }' not supported between "
+                                        f"instances of '{type_name(a)}' and '{type_name(b)}'")
+        if a.kind in ('tuple', 'list') and a.kind == b.kind and a.items is not None and b.items is not None:
+            for x_, y_ in zip(a.items, b.items):
+                if not self.eq(x_, y_):
+                    return self.compare(ast.Lt() if isinstance(op, (ast.Lt, ast.LtE)) else ast.Gt(), x_, y_)
+            la, lb = len(a.items), len(b.items)
+            return {ast.Lt: la < lb, ast.LtE: la <= lb, ast.Gt: la > lb, ast.GtE: la >= lb}[type(op)]
         if a.kind == 'blank':
             a = AV('int', sign='zero', val=0, origin=a.origin)
         if b.kind == 'blank':
